@@ -799,15 +799,42 @@ func (fr *frame) loadSymPtr(T types.Type, p symptr) value {
 			return true
 		}(); w {
 			// all elements must be scalar ints/bools
-			r := m.term(p.base[len(p.base)-1])
-			for i := len(p.base) - 2; i >= 0; i-- {
-				r = m.tt.Ite(m.tt.Eq(p.idx.t, m.tt.Const(uint64(i), p.idx.t.w)), m.term(p.base[i]), r)
-			}
-			return mkval(r, k)
+			return mkval(m.selectTerm(p.base, p.idx.t), k)
 		}
 	}
 	i := asInt64(m.concretize(fr, p.idx))
 	return load(T, &p.base[i])
+}
+
+// selectTerm builds base[idx] for an in-range symbolic idx: runs of equal elements are
+// merged and the runs are selected by a balanced tree of unsigned comparisons.
+func (m *Machine) selectTerm(base []value, idx *Term) *Term {
+	tt := m.tt
+	type run struct {
+		lo int // first index of the run
+		t  *Term
+	}
+	var runs []run
+	for i, e := range base {
+		t := m.term(e)
+		if len(runs) == 0 || runs[len(runs)-1].t != t {
+			runs = append(runs, run{i, t})
+		}
+	}
+	var build func(a, b int) *Term // runs[a:b], b > a
+	build = func(a, b int) *Term {
+		if b-a == 1 {
+			return runs[a].t
+		}
+		mid := (a + b) / 2
+		// idx < runs[mid].lo ? left : right   (compare at idx's width; lo fits because idx is in range)
+		c := tt.Bin(OpULt, idx, tt.Const(uint64(runs[mid].lo), idx.w))
+		if uint64(runs[mid].lo) > mask(idx.w) {
+			c = tt.True
+		}
+		return tt.Ite(c, build(a, mid), build(mid, b))
+	}
+	return build(0, len(runs))
 }
 
 // typeAssert checks whether dynamic type of itf is instr.AssertedType.
@@ -1113,7 +1140,20 @@ func (it *stringIter) next(fr *frame) tuple {
 			return tuple{true, start, mkval(fr.m.tt.ZExt(s.t, 32), types.Int32)}
 		}
 	}
-	// decode up to 4 bytes concretely
+	// multi-byte: run the real unicode/utf8.DecodeRuneInString on the (symbolic) tail
+	if pkg := fr.m.prog.prog.ImportedPackage("unicode/utf8"); pkg != nil {
+		if dec := pkg.Func("DecodeRuneInString"); dec != nil {
+			end := it.i + 4
+			if end > len(it.s.b) {
+				end = len(it.s.b)
+			}
+			r := fr.m.callSSA(fr, token.NoPos, dec, []value{mkstr(it.s.b[it.i:end])}, nil).(tuple)
+			size := int(fr.cint(r[1]))
+			it.i += size
+			return tuple{true, start, r[0]}
+		}
+	}
+	// fallback: decode up to 4 bytes concretely
 	var buf [4]byte
 	n := 0
 	for n < 4 && it.i+n < len(it.s.b) {
